@@ -96,7 +96,12 @@ CLAIMED = {
         "the state graph is replayed lock-step on the real mailbox. Code level: every (topology, stage, chunk) failure, saver close "
         "failure, consumer failure / abandonment and the failure-free case run on both real processors - the threaded one under "
         "the deterministic scheduler for seeded random and priority-based schedules - and TLC judges every observation against "
-        "PipelineObs.tla (original exception reaches the caller, no hang, no live threads, no silent truncation).",
+        "PipelineObs.tla (original exception reaches the caller, no hang, no live threads, no silent truncation). The last clause "
+        "(termination provided the capacity exceeds the chunk lag) has its own model, spec/LagNet.tla: a diamond whose one branch holds "
+        "back Lag chunks, mailboxes of capacity Cap with the batch-grabbing readers of Mailbox._read; for every (Cap, Lag) of a grid TLC "
+        "decides whether every schedule terminates, every schedule deadlocks or the outcome depends on the schedule, and checks that "
+        "Lag < Cap never gets stuck; the same network runs on the real threaded processor under the deterministic scheduler and the "
+        "outcomes are compared cell by cell (on the unchanged tree the tables agree exactly, including the schedule-dependent cell).",
    note="Binding of Pipeline.tla: every real chain run (source -> plugin -> plugin with savers, or with a loader) records, per scheduler "
         "step, the acting thread and the projection of the real mailboxes (messages pushed, END pushed, killed, force_killed, class of "
         "killed_because, _subscribers_have_read, _subscriber_waiting_for, finished threads, the caller's outcome); TLC accepts a trace iff "
